@@ -61,6 +61,7 @@ func (m *Mutex) TryLock() bool {
 	}
 	st.w = true
 	st.owner = s.cur.ID
+	s.cur.held = append(s.cur.held, st)
 	return true
 }
 
@@ -81,6 +82,7 @@ func (m *Mutex) Unlock() {
 		s.fail("unlock of unlocked mutex " + st.label)
 	}
 	st.w = false
+	s.cur.drop(st)
 	s.trace(s.cur, "unlock "+st.label)
 }
 
@@ -146,6 +148,7 @@ func (m *RWMutex) Unlock() {
 		s.fail("unlock of unlocked rwmutex " + st.label)
 	}
 	st.w = false
+	s.cur.drop(st)
 	s.trace(s.cur, "unlock "+st.label)
 }
 
@@ -176,6 +179,7 @@ func (m *RWMutex) RUnlock() {
 		s.fail("runlock of unlocked rwmutex " + st.label)
 	}
 	st.r--
+	s.cur.drop(st)
 	s.trace(s.cur, "runlock "+st.label)
 }
 
